@@ -495,3 +495,540 @@ Proof.
     + rewrite nth_set_nth_neq in Hf by exact Hne. left. now apply K1.
   - intros r Hin. left. now apply K2.
 Qed.
+
+(* ======================================================================== *)
+(* 4. The chain through a whole history                                      *)
+(* ======================================================================== *)
+Lemma keeps_ext (E E' : Z -> Prop) f :
+  (forall r, E' r -> E r) -> keeps E f -> keeps E' f.
+Proof.
+  intros H [Hlen [Hnd [J1 J2]]]. repeat split; try assumption.
+  - intros j Hj HE. apply J1; [exact Hj|now apply H].
+  - intros r HE Hn. apply J2; [now apply H|exact Hn].
+Qed.
+
+Lemma only_weaken (V V' : Z -> Prop) f :
+  (forall r, V r -> V' r) -> only V f -> only V' f.
+Proof.
+  intros H [Hlen [K1 K2]]. repeat split; try assumption.
+  - intros j Hj Hf. apply H. now apply K1.
+  - intros r Hin. apply H. now apply K2.
+Qed.
+
+(* the stored root ids are the parent's selection hashed at creation *)
+Definition hash_inv (f : filt) : Prop :=
+  f_rids f = select (fst (f_phash f)) (snd (f_phash f)).
+
+Definition finv (g : ghost) (f : filt) : Prop :=
+  keeps (fun r => In r (g_excl g)) f
+  /\ only (fun r => In r (g_ever g)) f
+  /\ hash_inv f.
+
+Definition linv (g : ghost) (l : level) : Prop := finv g (l_filt l).
+
+Lemma finv_same g f f' :
+  same_manual f f' -> f_phash f' = f_phash f -> finv g f -> finv g f'.
+Proof.
+  intros Hs Hp [HJ [HK HH]]. split; [|split].
+  - apply (keeps_same _ f f' Hs HJ).
+  - apply (only_same _ f f' Hs HK).
+  - destruct Hs as [_ [_ Hr]]. unfold hash_inv in *. now rewrite Hr, Hp.
+Qed.
+
+Lemma linv_filter_update g l : linv g l -> linv g (filter_update l).
+Proof.
+  unfold linv. apply finv_same; [repeat split|reflexivity].
+Qed.
+
+Lemma select_NoDup {A} (m : list bool) (xs : list A) :
+  NoDup xs -> NoDup (select m xs).
+Proof.
+  revert xs; induction m as [|b m IH]; intros [|x xs] H; simpl;
+    try constructor.
+  inversion H as [|? ? Hx Hxs]; subst.
+  destruct b; [constructor|]; try now apply IH.
+  intros Hin. apply Hx. now apply select_In in Hin.
+Qed.
+
+Lemma list_eqb_eq {A} (eqb : A -> A -> bool) :
+  (forall x y, eqb x y = true -> x = y) ->
+  forall a b, list_eqb eqb a b = true -> a = b.
+Proof.
+  intros Heq; induction a as [|x a IH]; intros [|y b] H; simpl in H;
+    try discriminate; [reflexivity|].
+  apply andb_true_iff in H. destruct H as [H1 H2].
+  f_equal; [now apply Heq|now apply IH].
+Qed.
+
+Lemma hash_eqb_eq a b : hash_eqb a b = true -> a = b.
+Proof.
+  destruct a as [a1 a2], b as [b1 b2]. unfold hash_eqb; simpl.
+  intros H. apply andb_true_iff in H. destruct H as [H1 H2].
+  f_equal.
+  - apply (list_eqb_eq Bool.eqb); [|exact H1].
+    intros x y Hxy. now apply eqb_prop.
+  - apply (list_eqb_eq Z.eqb); [|exact H2].
+    intros x y Hxy. now apply Z.eqb_eq.
+Qed.
+
+Lemma retrieve_phash f : f_phash (retrieve f) = f_phash f.
+Proof. unfold retrieve; destruct (all_true (f_manual f)); reflexivity. Qed.
+
+(* the filter of a child after its refresh, in terms of section 3 *)
+Lemma child_finish_filter c p :
+  let f := l_filt c in
+  let g := l_filt (child_finish (set_filt c (retrieve f)) p) in
+  (same_manual (retrieve f) g /\ f_phash g = f_phash f
+   /\ f_phash f = parent_hash p)
+  \/ (f_rids g = select (f_all (l_filt p)) (f_rids (l_filt p))
+      /\ f_mri g = f_mri (retrieve (retrieve f))
+      /\ f_manual g = map (fun r => negb (memz r (f_mri g))) (f_rids g)
+      /\ f_phash g = parent_hash p).
+Proof.
+  intros f g. subst g. unfold child_finish. cbn [l_filt set_filt l_cfg l_len l_data].
+  rewrite retrieve_phash.
+  destruct (hash_eqb (parent_hash p) (f_phash f)) eqn:E.
+  - left. apply hash_eqb_eq in E. repeat split; cbn; try reflexivity.
+    + apply retrieve_phash.
+    + now symmetry.
+  - right. repeat split; reflexivity.
+Qed.
+
+Lemma child_finish_inv g c p :
+  linv g c -> NoDup (f_rids (l_filt p)) ->
+  linv g (child_finish (set_filt c (retrieve (l_filt c))) p).
+Proof.
+  unfold linv. intros [HJ [HK HH]] Hnd.
+  destruct (child_finish_filter c p) as [[Hs [Hp Hq]]|[Hr [Hm [Hman Hp]]]].
+  - apply (finv_same g (retrieve (l_filt c))); [exact Hs| |].
+    + now rewrite retrieve_phash.
+    + split; [|split].
+      * now apply keeps_retrieve.
+      * now apply only_retrieve.
+      * unfold hash_inv. now rewrite retrieve_rids, retrieve_phash.
+  - set (gf := l_filt (child_finish (set_filt c (retrieve (l_filt c))) p)) in *.
+    assert (R : refreshed (l_filt c) gf).
+    { right. exists (f_rids gf). repeat split.
+      - rewrite Hr. now apply select_NoDup.
+      - exact Hm.
+      - exact Hman. }
+    split; [|split].
+    + apply (keeps_refreshed _ _ _ R HJ).
+    + apply (only_refreshed _ _ _ R HK).
+    + unfold hash_inv. rewrite Hp. exact Hr.
+Qed.
+
+Lemma linv_NoDup g l : linv g l -> NoDup (f_rids (l_filt l)).
+Proof. intros [[_ [H _]] _]. exact H. Qed.
+
+Theorem refresh_up_inv :
+  forall ls gs, Forall2 linv gs ls -> Forall2 linv gs (refresh_up ls).
+Proof.
+  induction ls as [|c ps IH]; intros gs H; [exact H|].
+  inversion H as [|g c' gs' ps'' Hg Hrest]; subst.
+  destruct ps as [|p ps'].
+  - inversion Hrest; subst. constructor; [|constructor].
+    now apply linv_filter_update.
+  - rewrite refresh_up_cons2.
+    pose proof (IH gs' Hrest) as IH'.
+    remember (refresh_up (p :: ps')) as R eqn:E.
+    destruct R as [|q qs].
+    + inversion IH'; subst. inversion Hrest.
+    + constructor; [|exact IH'].
+      inversion IH' as [|gq q' gqs qs' Hq _]; subst.
+      apply child_finish_inv; [exact Hg|].
+      eapply linv_NoDup; exact Hq.
+Qed.
+
+Lemma nth_repeat {A} (x d : A) n j : (j < n)%nat -> nth j (repeat x n) d = x.
+Proof.
+  revert j; induction n as [|n IH]; intros [|j] H; simpl; try lia;
+    [reflexivity|]. apply IH; lia.
+Qed.
+
+Lemma map_const_true (l : list Z) :
+  map (fun r => negb (memz r [])) l = repeat true (length l).
+Proof.
+  induction l as [|x l IH]; [reflexivity|].
+  cbn [map length repeat]. f_equal. exact IH.
+Qed.
+
+Lemma new_child_inv p :
+  NoDup (f_rids (l_filt p)) -> linv (mkghost [] []) (new_child p).
+Proof.
+  intros Hnd. apply linv_filter_update. unfold linv, finv; cbn.
+  set (rids := select (f_all (l_filt p)) (f_rids (l_filt p))).
+  repeat split; cbn.
+  - now rewrite map_length.
+  - now apply select_NoDup.
+  - intros j Hj [].
+  - intros r [].
+  - now rewrite map_length.
+  - intros j Hj Hf. rewrite map_const_true, nth_repeat in Hf by exact Hj.
+    discriminate.
+  - intros r [].
+Qed.
+
+Theorem grow_inv ls gs :
+  Forall2 linv gs ls -> ls <> [] ->
+  Forall2 linv (mkghost [] [] :: gs) (grow ls).
+Proof.
+  intros H Hne. unfold grow.
+  pose proof (refresh_up_inv ls gs H) as H'.
+  pose proof (refresh_up_length ls) as Hl.
+  destruct (refresh_up ls) as [|p ps].
+  - destruct ls; [congruence|simpl in Hl; discriminate].
+  - constructor; [|exact H'].
+    inversion H'; subst. apply new_child_inv. eapply linv_NoDup; eassumption.
+Qed.
+
+(* ---- the local edits ------------------------------------------------------ *)
+Lemma Forall2_set_nth {A B} (R : A -> B -> Prop) xs ys pos x y :
+  Forall2 R xs ys -> R x y -> Forall2 R (set_nth pos x xs) (set_nth pos y ys).
+Proof.
+  intros H; revert pos; induction H as [|a b xs ys Hab H IH]; intros pos Hxy.
+  - destruct pos; constructor.
+  - destruct pos; simpl; constructor; auto.
+Qed.
+
+Lemma Forall2_nth_error {A B} (R : A -> B -> Prop) xs ys pos y :
+  Forall2 R xs ys -> nth_error ys pos = Some y ->
+  exists x, nth_error xs pos = Some x /\ R x y.
+Proof.
+  intros H; revert pos; induction H as [|a b xs ys Hab H IH]; intros pos Hy.
+  - destruct pos; discriminate.
+  - destruct pos; simpl in *.
+    + injection Hy as <-. now exists a.
+    + now apply IH.
+Qed.
+
+Lemma set_nth_same {A} (l : list A) pos x :
+  nth_error l pos = Some x -> set_nth pos x l = l.
+Proof.
+  revert pos; induction l as [|y l IH]; intros [|pos] H; simpl in *;
+    try discriminate; [now injection H as ->|].
+  now rewrite IH.
+Qed.
+
+(* an edit of a level that leaves the manual part of its filter alone *)
+Lemma upd_level_inv gs ls pos (h : level -> level) :
+  (forall g l, linv g l -> linv g (h l)) ->
+  Forall2 linv gs ls -> Forall2 linv gs (upd_level ls pos h).
+Proof.
+  intros Hh H. unfold upd_level.
+  destruct (nth_error ls pos) as [l|] eqn:E; [|exact H].
+  destruct (Forall2_nth_error _ _ _ _ _ H E) as [g [Eg Hg]].
+  rewrite <- (set_nth_same gs pos g Eg).
+  apply Forall2_set_nth; [exact H|now apply Hh].
+Qed.
+
+Lemma set_manual_inv g l i v :
+  linv g l -> linv (spec_manual l i v g) (set_manual i v l).
+Proof.
+  unfold linv, spec_manual, set_manual.
+  set (f := l_filt l). set (n := Z.of_nat (length (f_manual f))).
+  intros [HJ [HK HH]].
+  destruct (n =? 0) eqn:En; [split; [|split]; assumption|].
+  assert (Hn : 0 < n) by lia.
+  set (idx := Z.to_nat (i mod n)).
+  assert (Hidx : (idx < length (f_manual f))%nat).
+  { subst idx n. pose proof (Z.mod_pos_bound i _ Hn). lia. }
+  cbn [l_filt set_filt].
+  set (f' := mkfilt (f_box f) (f_old f) (set_nth idx v (f_manual f)) (f_all f)
+                    (f_mri f) (f_rids f) (f_phash f)).
+  assert (Hed : edited idx v f f') by (repeat split; assumption).
+  set (r0 := nth idx (f_rids f) (-1)).
+  destruct v.
+  - split; [|split].
+    + apply (keeps_ext _ _ f' (fun r => proj1 (filter_In _ r (g_excl g)))) .
+      apply (keeps_ext (fun r => In r (g_excl g) /\ r <> r0)).
+      * intros r [Hin Hneq]. split; [exact Hin|].
+        apply negb_true_iff in Hneq. apply Z.eqb_neq in Hneq. exact Hneq.
+      * apply (keeps_include _ f f' idx Hed HJ).
+    + cbn [g_ever].
+      apply (only_weaken (fun r => In r (g_ever g) \/ (true = false /\ r = r0))).
+      * intros r [H|[H _]]; [exact H|discriminate].
+      * apply (only_edit _ f f' idx true Hed HK).
+    + exact HH.
+  - split; [|split].
+    + cbn [g_excl].
+      apply (keeps_ext (fun r => In r (g_excl g) \/ r = r0)).
+      * intros r [H|H]; [right; now symmetry|now left].
+      * apply (keeps_exclude _ f f' idx Hed HJ).
+    + cbn [g_ever].
+      apply (only_weaken (fun r => In r (g_ever g) \/ (false = false /\ r = r0))).
+      * intros r [H|[_ H]]; [now right|left; now symmetry].
+      * apply (only_edit _ f f' idx false Hed HK).
+    + exact HH.
+Qed.
+
+Lemma set_root_data_inv gs ls slot d :
+  Forall2 linv gs ls -> Forall2 linv gs (set_root_data ls slot d).
+Proof.
+  intros H; induction H as [|g l gs ls Hg H IH]; [constructor|].
+  destruct ls as [|l' ls'].
+  - inversion H; subst. constructor; [exact Hg|constructor].
+  - change (set_root_data (l :: l' :: ls') slot d)
+      with (l :: set_root_data (l' :: ls') slot d).
+    constructor; assumption.
+Qed.
+
+Lemma Forall2_firstn_skipn {A B} (R : A -> B -> Prop) xs ys n :
+  Forall2 R xs ys ->
+  Forall2 R (firstn n xs) (firstn n ys) /\ Forall2 R (skipn n xs) (skipn n ys).
+Proof.
+  intros H; revert n; induction H as [|a b xs ys Hab H IH]; intros [|n];
+    simpl; try (split; constructor; assumption).
+  destruct (IH n) as [H1 H2]. split; [constructor|]; assumption.
+Qed.
+
+Theorem set_temp_inv gs ls pos slot seed :
+  Forall2 linv gs ls -> Forall2 linv gs (fst (set_temp ls pos slot seed)).
+Proof.
+  intros H. unfold set_temp.
+  destruct (skipn pos ls) as [|l anc] eqn:E; [exact H|].
+  destruct (c2r anc (iota 0 (Z.to_nat (l_len l)))) as [rids|]; [|exact H].
+  set (ls1 := set_root_data ls slot _).
+  assert (H1 : Forall2 linv gs ls1) by now apply set_root_data_inv.
+  destruct anc; [exact H1|].
+  cbn [fst].
+  destruct (Forall2_firstn_skipn _ _ _ pos H1) as [Ha Hb].
+  rewrite <- (firstn_skipn pos gs).
+  apply Forall2_app; [exact Ha|].
+  now apply refresh_up_inv.
+Qed.
+
+Theorem step_inv st gs op :
+  Forall2 linv gs (s_levels st) ->
+  Forall2 linv (spec_step st gs op) (s_levels (fst (step st op))).
+Proof.
+  intros H. destruct op as [[[[tag a] b] c] d].
+  unfold step, spec_step.
+  destruct (Z.eqb_spec tag 0) as [->|N0].
+  { cbn [Z.eqb Pos.eqb fst s_levels].
+    apply upd_level_inv; [|exact H]. intros g l Hl. exact Hl. }
+  destruct (Z.eqb_spec tag 1) as [->|N1].
+  { cbn [Z.eqb Pos.eqb fst s_levels]. unfold upd_level.
+    destruct (nth_error (s_levels st) (pos_of (s_levels st) a)) as [l|] eqn:El;
+      [|exact H].
+    destruct (Forall2_nth_error _ _ _ _ _ H El) as [g [Eg Hg]].
+    rewrite Eg. apply Forall2_set_nth; [exact H|].
+    now apply set_manual_inv. }
+  destruct (Z.eqb_spec tag 2) as [->|N2].
+  { cbn [Z.eqb Pos.eqb].
+    pose proof (set_temp_inv gs (s_levels st) (pos_of (s_levels st) a)
+                             (3 + Z.to_nat (b mod 2)) c H) as Ht.
+    destruct (set_temp (s_levels st) (pos_of (s_levels st) a)
+                       (3 + Z.to_nat (b mod 2)) c) as [ls' e].
+    exact Ht. }
+  destruct (Z.eqb_spec tag 3) as [->|N3].
+  { cbn [Z.eqb Pos.eqb fst s_levels]. now apply refresh_up_inv. }
+  destruct (Z.eqb_spec tag 4) as [->|N4].
+  { cbn [Z.eqb Pos.eqb fst s_levels].
+    apply upd_level_inv; [|exact H]. intros g l Hl. exact Hl. }
+  destruct (Z.eqb_spec tag 5) as [->|N5].
+  { cbn [Z.eqb Pos.eqb fst s_levels].
+    apply upd_level_inv; [|exact H]. intros g l Hl. exact Hl. }
+  destruct (Z.eqb_spec tag 6) as [->|N6].
+  { cbn [Z.eqb Pos.eqb fst].
+    destruct (s_levels st) as [|l0 ls0] eqn:Els.
+    - destruct (Nat.leb (length (@nil level)) MAXDEPTH); cbn [s_levels];
+        rewrite ?Els; exact H.
+    - destruct (Nat.leb (length (l0 :: ls0)) MAXDEPTH); cbn [s_levels].
+      + apply grow_inv; [exact H|discriminate].
+      + rewrite Els. exact H. }
+  cbn [fst]. exact H.
+Qed.
+
+Lemma iota_NoDup s n : NoDup (iota s n).
+Proof.
+  revert s; induction n as [|n IH]; intros s; simpl; constructor.
+  - rewrite iota_In. lia.
+  - apply IH.
+Qed.
+
+Lemma select_repeat_true {A} (xs : list A) :
+  select (repeat true (length xs)) xs = xs.
+Proof. induction xs as [|x xs IH]; simpl; [|rewrite IH]; reflexivity. Qed.
+
+Lemma init_inv n cols :
+  Forall2 linv [mkghost [] []] (s_levels (init n cols)).
+Proof.
+  constructor; [|constructor].
+  unfold linv, finv, init_root; cbn.
+  repeat split; cbn.
+  - now rewrite repeat_length, iota_length.
+  - apply iota_NoDup.
+  - intros j Hj [].
+  - intros r [].
+  - now rewrite repeat_length, iota_length.
+  - intros j Hj Hf. rewrite iota_length in Hj.
+    rewrite nth_repeat in Hf by exact Hj. discriminate.
+  - intros r [].
+  - unfold hash_inv; cbn.
+    rewrite <- (iota_length 0 n) at 2. now rewrite select_repeat_true.
+Qed.
+
+Theorem run_inv ops : forall st gs st' gs',
+  Forall2 linv gs (s_levels st) ->
+  spec_run st gs ops = (st', gs') ->
+  Forall2 linv gs' (s_levels st').
+Proof.
+  induction ops as [|o ops IH]; intros st gs st' gs' H Hr; simpl in Hr.
+  - injection Hr as <- <-. exact H.
+  - eapply IH; [|exact Hr]. now apply step_inv.
+Qed.
+
+(* For every root dataset and every history of operations: at every level,
+   every event the user has excluded there and not re-included (root ids,
+   tracked by spec_run) is excluded in filter.manual whenever it is among
+   the level's events, and is kept in the stored root ids while it is
+   hidden; and no event the user never excluded there is excluded. *)
+Theorem history_manual_exclusions :
+  forall n cols ops st gs k l g,
+    spec_run (init n cols) [mkghost [] []] ops = (st, gs) ->
+    nth_error (s_levels st) k = Some l -> nth_error gs k = Some g ->
+    let f := l_filt l in
+    (forall j, (j < length (f_rids f))%nat ->
+               In (nth j (f_rids f) (-1)) (g_excl g) ->
+               nth j (f_manual f) true = false)
+    /\ (forall r, In r (g_excl g) -> ~ In r (f_rids f) -> In r (f_mri f))
+    /\ (forall j, (j < length (f_rids f))%nat ->
+                  nth j (f_manual f) true = false ->
+                  In (nth j (f_rids f) (-1)) (g_ever g))
+    /\ length (f_manual f) = length (f_rids f).
+Proof.
+  intros n cols ops st gs k l g Hr Hl Hg f.
+  pose proof (run_inv ops _ _ _ _ (init_inv n cols) Hr) as H.
+  destruct (Forall2_nth_error _ _ _ _ _ H Hl) as [g' [Eg [HJ [HK _]]]].
+  rewrite Hg in Eg. injection Eg as <-.
+  destruct HJ as [Hlen [_ [J1 J2]]]. destruct HK as [_ [K1 _]].
+  repeat split; assumption.
+Qed.
+
+(* what the stored root ids mean: after a refresh the ids of a child are the
+   parent's ids restricted to the parent's filter, i.e. the root indices of
+   the child's events *)
+Fixpoint rids_ok (ls : list level) : Prop :=
+  match ls with
+  | c :: ps => match ps with
+               | p :: _ => f_rids (l_filt c)
+                           = select (f_all (l_filt p)) (f_rids (l_filt p))
+                           /\ rids_ok ps
+               | [] => True
+               end
+  | [] => True
+  end.
+
+Theorem refresh_rids :
+  forall ls gs, Forall2 linv gs ls -> rids_ok (refresh_up ls).
+Proof.
+  induction ls as [|c ps IH]; intros gs H; [exact I|].
+  inversion H as [|g c' gs' ps'' Hg Hrest]; subst.
+  destruct ps as [|p ps']; [exact I|].
+  rewrite refresh_up_cons2.
+  pose proof (IH gs' Hrest) as IH'.
+  remember (refresh_up (p :: ps')) as R eqn:E.
+  destruct R as [|q qs]; [exact I|].
+  split; [|exact IH'].
+  destruct (child_finish_filter c q) as [[[_ [_ Hr]] [Hp Hq]]|[Hr _]].
+  - rewrite Hr, retrieve_rids.
+    destruct Hg as [_ [_ HH]]. unfold hash_inv in HH.
+    rewrite HH, Hq. reflexivity.
+  - exact Hr.
+Qed.
+
+Theorem history_rids_after_rejuvenate :
+  forall n cols ops st gs,
+    spec_run (init n cols) [mkghost [] []] ops = (st, gs) ->
+    rids_ok (s_levels (fst (step st (3, 0, 0, 0, 0)))).
+Proof.
+  intros n cols ops st gs Hr. cbn.
+  eapply refresh_rids. eapply run_inv; [apply init_inv|exact Hr].
+Qed.
+
+(* ======================================================================== *)
+(* 5. Non-vacuity: concrete histories that meet the hypotheses              *)
+(* ======================================================================== *)
+Definition ex_cols : list col :=
+  [ map (fun i => (0, i)) (iota 0 8);
+    map (fun i => (0, 20 - i)) (iota 0 8);
+    map (fun i => (0, 3)) (iota 0 8) ].
+
+(* root, two children; root range on column 0 = [0,4]; exclusion of the event
+   at position 2 of the grandchild (root event 2); refresh; the root range
+   moves to [3,7] (event 2 hidden); refresh; back to [0,4]; refresh *)
+Definition ex_ops1 : list (Z * Z * Z * Z * Z) :=
+  [ (6,0,0,0,0); (6,0,0,0,0); (0,0,0,0,4); (3,0,0,0,0); (1,2,2,0,0);
+    (3,0,0,0,0) ].
+Definition ex_ops2 := ex_ops1 ++ [ (0,0,0,3,7); (3,0,0,0,0) ].
+Definition ex_ops3 := ex_ops2 ++ [ (0,0,0,0,4); (3,0,0,0,0) ].
+
+Definition ex_youngest (ops : list (Z * Z * Z * Z * Z)) :=
+  let '(st, gs) := spec_run (init 8 ex_cols) [mkghost [] []] ops in
+  match s_levels st, gs with
+  | l :: _, g :: _ => (f_rids (l_filt l), f_manual (l_filt l),
+                       f_mri (l_filt l), g_excl g, l_len l)
+  | _, _ => ([], [], [], [], 0)
+  end.
+
+(* visible and excluded; hidden but remembered; back and excluded again *)
+Example ex_history_1 :
+  ex_youngest ex_ops1 = ([0;1;2;3;4], [true;true;false;true;true], [2], [2], 5).
+Proof. vm_compute. reflexivity. Qed.
+Example ex_history_2 :
+  ex_youngest ex_ops2 = ([3;4;5;6;7], [true;true;true;true;true], [2], [2], 5).
+Proof. vm_compute. reflexivity. Qed.
+Example ex_history_3 :
+  ex_youngest ex_ops3 = ([0;1;2;3;4], [true;true;false;true;true], [2], [2], 5).
+Proof. vm_compute. reflexivity. Qed.
+
+(* the chain after ex_ops2 is a non-trivial instance of view_ok: the
+   youngest has 5 of the root's 8 events and the columns of events 3..7 *)
+Example ex_view :
+  let st := fst (run (init 8 ex_cols) ex_ops2) in
+  map l_len (s_levels st) = [5; 5; 8]
+  /\ nth 0 (l_data (hd (init_root 0 []) (s_levels st))) None
+     = Some [(0,3); (0,4); (0,5); (0,6); (0,7)].
+Proof. vm_compute. split; reflexivity. Qed.
+
+(* a filter, its refresh over other events, and a set E it keeps *)
+Definition ex_f : filt :=
+  mkfilt [] None [true; false; true] [true; true; true] [9] [4; 5; 6]
+         ([true; true; true], [4; 5; 6]).
+Definition ex_g : filt :=
+  mkfilt [] None [false; true] [true; true] [5; 9] [5; 7] ([], []).
+
+Example ex_refreshed : refreshed ex_f ex_g.
+Proof.
+  right. exists [5; 7]. repeat split.
+  repeat constructor; simpl; intuition discriminate.
+Qed.
+
+Example ex_keeps : keeps (fun r => r = 5 \/ r = 9) ex_f.
+Proof.
+  repeat split.
+  - repeat constructor; simpl; intuition discriminate.
+  - intros [|[|[|j]]] Hj [H|H]; simpl in *; try lia; try discriminate;
+      reflexivity.
+  - intros r [ -> | -> ] Hn; simpl in *; [exfalso; apply Hn; auto|auto].
+Qed.
+
+Example ex_edited :
+  edited 0 false ex_f
+         (mkfilt [] None [false; false; true] [true; true; true] [9] [4; 5; 6]
+                 ([true; true; true], [4; 5; 6])).
+Proof. repeat split. simpl. lia. Qed.
+
+Example ex_only : only (fun r => r = 5 \/ r = 9) ex_f.
+Proof.
+  repeat split.
+  - intros [|[|[|j]]] Hj Hf; simpl in *; try discriminate; try lia; now left.
+  - intros r [ <- | [] ]. now right.
+Qed.
+
+Example ex_select_where :
+  select [true; false; true; true] [10; 11; 12; 13]
+  = map (fun i => nth (Z.to_nat i) [10; 11; 12; 13] 0)
+        (where_ [true; false; true; true]).
+Proof. reflexivity. Qed.
